@@ -63,8 +63,21 @@ def make_scratch(mounts, atomics_files=(), extra_subs=(), tmp_root=None):
     scratch = tempfile.mkdtemp(prefix="ocv-", dir=tmp_root)
     applied = []
     try:
-        for name in ("Cargo.lock",):
-            shutil.copy(os.path.join(REPO, name), os.path.join(scratch, name))
+        # Cargo.lock: keep every pin except the crates replaced by model crates (their lock entries
+        # would make cargo ignore the [patch] section).
+        lock = _read(os.path.join(REPO, "Cargo.lock"))
+        blocks = lock.split("\n[[package]]\n")
+        kept = [blocks[0]]
+        dropped = 0
+        for b in blocks[1:]:
+            m = re.match(r'name = "([^"]+)"', b)
+            if m and m.group(1) in MODEL_CRATES:
+                dropped += 1
+                continue
+            kept.append(b)
+        if dropped < len(MODEL_CRATES):
+            raise InfraError(f"Cargo.lock: expected lock entries for all model crates, dropped {dropped}")
+        _write(os.path.join(scratch, "Cargo.lock"), "\n[[package]]\n".join(kept))
         shutil.copytree(
             os.path.join(REPO, "core"), os.path.join(scratch, "core"),
             ignore=shutil.ignore_patterns("target", "*.log"))
